@@ -170,6 +170,7 @@ func schemaDocsMain(args []string) int {
 	n := 0
 	emit := func(v interface{}, src string) {
 		b, err := json.Marshal(v)
+		b = escapeCtl(b)
 		if err != nil || seen[string(b)] {
 			return
 		}
